@@ -654,6 +654,9 @@ func (tc *TC) check(g ctx, t *Tm, prov string, A *Ty, where string) Verdict {
 				}
 			}
 		} else if t.Body.IsAxiom() {
+			if reused && (t.Body.X == t.X) {
+				return unknown("cut whose axiomatic body uses the rebound name as its subject")
+			}
 			if t.Ty == nil {
 				return reject("missing-type", "cut with an axiomatic body needs a type annotation")
 			}
